@@ -193,7 +193,11 @@ impl LiveActor {
         sync_actor_tx: mpsc::Sender<ToLiveActor>,
         metrics: Arc<Metrics>,
     ) -> Result<Self> {
-        let (replica_events_tx, replica_events_rx) = async_channel::bounded(1024);
+        // Unbounded: the store actor sends one event per inserted entry while it processes a sync
+        // message, and this actor awaits replies of the store actor in several places. With a
+        // bounded queue a message carrying more entries than the queue holds made both actors
+        // wait for each other forever.
+        let (replica_events_tx, replica_events_rx) = async_channel::unbounded();
         let gossip_state = GossipState::new(gossip, sync.clone(), sync_actor_tx.clone());
         let memory_lookup = MemoryLookup::new();
         endpoint.address_lookup()?.add(memory_lookup.clone());
